@@ -145,7 +145,7 @@ func C17(r *drv.Run) {
 	if !quick(r) {
 		n = 80000
 	}
-	r.Rule = "seven programs whose loops are named by a string holding what JSON must escape in a member name (tab, line feed as escape and bare, control bytes, DEL, backslash, slash, <&>, U+2028, an astral character); the fixed programs also in processes whose standard output is a terminal (a fresh pseudo-terminal) or the null device, under the environment of an interactive session (TERM, COLORTERM, forced colours); result lists empty / one / many from find and replace commands, flat captures and named-loop (nested) variables, produced by fixed programs that capture arbitrary bytes (four replace commands whose captures are called like the replacer's built-ins; seven with names made of digits - leading zeros, names differing only in leading zeros - or needing escapes as JSON keys, given through regex named groups and loops named by a string; five with captures and named loops called like members of the output format: offset, column, value, variables, filename, replacement, matchNumber, key, null) and by the any-program generator, over texts with quotes, backslashes, control bytes, the replacement character U+FFFD written as a character (well-formed text, not the stand-in for a broken byte), <>&, U+2028/2029, multi-byte UTF-8, invalid UTF-8, and code points of every plane (format characters incl. astral tag characters, C1 controls, non-characters, private use, U+10FFFF; fixed and seeded random). Also RunFiles results whose file names need escaping or are spelled in a non-canonical way (quotes, backslash, <&>, non-ASCII, newline and tab in names; dir//name, dir/./name, dir/sub/../name; a directory argument with a trailing slash): the filename member must be the in-memory name, byte for byte. Also lists of 511 .. 20 000 matches (sizes at and next to powers of two and ten, every thousand, ten seed-chosen sizes), and EVERY list length from 1 to 1 500 (thorough: 9 000) rendered both ways and validated inside the worker; the nil list, the empty list and an emptied list (what a caller collecting results builds itself) must render as equal documents both ways. After the texts of a case a result list that has been rendered is refilled in place with the matches of another text (same length) and rendered again: it must give that other list's document. Oracle: Json() and FormattedJson() return without panic, json.Valid, decode to equal documents, one object per match whose fields equal the in-memory match (replacement present iff the match has one); exact string equality is demanded where the in-memory strings are valid UTF-8. Non-trivial = a result list with >= 1 match rendered and decoded; distinct by (program, text)."
+	r.Rule = "every result list of the fixed programs also rendered by eight goroutines at the same time, twelve renderings each, compact and formatted: each is the text the list gives alone; seven programs whose loops are named by a string holding what JSON must escape in a member name (tab, line feed as escape and bare, control bytes, DEL, backslash, slash, <&>, U+2028, an astral character); the fixed programs also in processes whose standard output is a terminal (a fresh pseudo-terminal) or the null device, under the environment of an interactive session (TERM, COLORTERM, forced colours); result lists empty / one / many from find and replace commands, flat captures and named-loop (nested) variables, produced by fixed programs that capture arbitrary bytes (four replace commands whose captures are called like the replacer's built-ins; seven with names made of digits - leading zeros, names differing only in leading zeros - or needing escapes as JSON keys, given through regex named groups and loops named by a string; five with captures and named loops called like members of the output format: offset, column, value, variables, filename, replacement, matchNumber, key, null) and by the any-program generator, over texts with quotes, backslashes, control bytes, the replacement character U+FFFD written as a character (well-formed text, not the stand-in for a broken byte), <>&, U+2028/2029, multi-byte UTF-8, invalid UTF-8, and code points of every plane (format characters incl. astral tag characters, C1 controls, non-characters, private use, U+10FFFF; fixed and seeded random). Also RunFiles results whose file names need escaping or are spelled in a non-canonical way (quotes, backslash, <&>, non-ASCII, newline and tab in names; dir//name, dir/./name, dir/sub/../name; a directory argument with a trailing slash): the filename member must be the in-memory name, byte for byte. Also lists of 511 .. 20 000 matches (sizes at and next to powers of two and ten, every thousand, ten seed-chosen sizes), and EVERY list length from 1 to 1 500 (thorough: 9 000) rendered both ways and validated inside the worker; the nil list, the empty list and an emptied list (what a caller collecting results builds itself) must render as equal documents both ways. After the texts of a case a result list that has been rendered is refilled in place with the matches of another text (same length) and rendered again: it must give that other list's document. Oracle: Json() and FormattedJson() return without panic, json.Valid, decode to equal documents, one object per match whose fields equal the in-memory match (replacement present iff the match has one); exact string equality is demanded where the in-memory strings are valid UTF-8. Non-trivial = a result list with >= 1 match rendered and decoded; distinct by (program, text)."
 	r.Assumptions = []string{"strings that are not valid UTF-8 cannot round-trip through JSON; for those only validity, document equality of the two renderings and all non-string fields are demanded"}
 	fixed := len(c17Programs)
 	mk := func(i int) *drv.Item {
@@ -170,9 +170,22 @@ func C17(r *drv.Run) {
 			texts = append(texts, []byte("a\"b\\c\nab\xc3\xa9 \xff"))
 		}
 		c := wire.Case{Op: "json", Src: []byte(src), Texts: texts, WantJSON: true, StepBudget: 300000}
+		if i < fixed {
+			// the fixed programs: every result list is also rendered by eight goroutines at once
+			c.ConcRender = 8
+		}
 		return &drv.Item{Case: c, Check: func(res *wire.Result) {
 			if crashOrGuard(r, res, &c, src, false) {
 				return
+			}
+			for ti := range res.Runs {
+				if m := res.Runs[ti].ConcRenderMismatch; m != "" {
+					r.Violate(&drv.Violation{Sig: "one-list-rendered-by-several-goroutines-at-once", Src: src, Text: string(texts[min(ti, len(texts)-1)]), Case: &c, Detail: map[string]any{"what": m}})
+					return
+				}
+			}
+			if c.ConcRender > 0 {
+				r.Count("cases_whose_lists_were_also_rendered_by_eight_goroutines_at_once", 1)
 			}
 			if res.Compile == nil || !res.Compile.OK {
 				if res.Compile != nil && res.Compile.Panic == nil {
